@@ -43,6 +43,8 @@ SCENARIOS = {
     "pipelined": {"victim": {"segments": [req(0, 0) + req(0, 1)]}, "apps": [OKB], "adj": {"channel_request_lookahead": 1}},
     "large": {"victim": {"segments": [req(0, 0)], "capacity": 40, "drain": 16}, "apps": [BIGB], "sndbuf": 32, "adj": {"outbuf_high_watermark": 60}},
     "body": {"victim": {"segments": [req(0, 0, body="abcdef")[:60], req(0, 0, body="abcdef")[60:]], "eof": True}, "apps": [OKB]},
+    "expect": {"victim": {"segments": [req(0, 0) + "POST /c0/r1 HTTP/1.1\r\nHost: h\r\nX-Conn: 0\r\nExpect: 100-continue\r\nContent-Length: 3\r\n\r\n", "abc"],
+                          "waits": [None, "continue"], "capacity": 30, "drain": 10}, "apps": [OKB]},
     "options": {"victim": {"segments": [req(0, 0, "Connection: close\r\n")]}, "apps": [OKB], "adj": {"threads": 2}},
 }
 
